@@ -84,9 +84,13 @@ def run(rep, tier, seed):
     rep.cov["trusted_base"] = BASE_TRUST + [
         "T5 translator harness/translate/effects.py: syntactic, conservative for simple aliases (y = y0, p = dae.p, basic slices); "
         "stores through containers of aliases or through callee functions outside Solverz/solvers are not seen statically",
+        "the registered SOLVERZ_VERIF hook (`if _VERIF: _verif_trace.append(...)`) is excluded from the summaries after checking, per file, "
+        "that _VERIF is exactly the environment guard and that _verif_trace is only ever appended to under it (write-only log); "
+        "the history runs execute with the guard on, so the hook code itself is exercised",
         "the link 'no syntactic store => the call preserves the shared state' is the translator's claim; the history runs test it dynamically"]
     changed, eff = effects.write(LEAN, REPO)
     rep.cov["effects_regenerated"] = bool(changed)
+    rep.cov["hook_sites_excluded"] = {k: v.get("hook_sites", 0) for k, v in eff.items() if v.get("hook_sites")}
     failed = rep.add_proof(prove("C14"))
     static_findings = [(k, a, x) for k, v in eff.items() for a in ("opt_writes", "arg_stores", "global_state") for x in v[a]]
     rng = np.random.default_rng(seed)
